@@ -157,7 +157,7 @@ def handleE (j : Json) : Except String Json := do
      ("soft", jList (fun (p : Nat × B) => Json.str s!"(soft {p.1} - {rBool I p.2})") m.soft),
      ("obj", Json.arr #[Json.str s!"(max {rInt I m.maximize})"]),
      ("wf", Json.mkObj [("names", Json.bool I.wfNames), ("chains", Json.bool I.wfChains),
-                        ("single", Json.bool I.wfSingleEntry)]),
+                        ("single", Json.bool I.wfSingleEntry), ("avail", Json.bool I.wfAvail)]),
      ("decode_fail", jList (jDecision I) (decodeFail I))]
   let withSigma : List (String × Json) :=
     match fldOpt j "sigma" with
